@@ -152,3 +152,29 @@ B('c04-attrs-leak', ['C04', 'C16'], OPER, "    return constructor(res, newaxes)"
 N('c04-n-rename', 'C04', OPER, "newaxes", "result_axes", 'rename', all=True)
 N('c04-n-list-arg', 'C04', OPER, "        o1, o2 = align_axes((o1, o2))", "        o1, o2 = align_axes([o1, o2])", 'list instead of tuple')
 N('c04-n-asarray', 'C04', OPER, "        res = func(o1.values, np.array(o2))", "        other = np.asarray(o2)\n        res = func(o1.values, other)", 'asarray + temp')
+
+# ------------------------------------------------------------------------------- C05
+B('c05-F2-copy-false', 'C05', CLS, "            if copy:\n                values = np.array(values, dtype=dtype)\n            else:\n                # no copy unless needed (np.array(..., copy=False) now raises if a copy is needed)\n                values = np.asarray(values, dtype=dtype)", "            values = np.array(values, copy=copy, dtype=dtype)", 'reintroduce F2')
+B('c05-F14-axes-setter', 'C05', CLS, "            newaxes = Axes._init(newaxes, shape=self.shape)\n        assert [ax.size for ax in newaxes] == list(self.shape), \"shape mismatch\"", "            newaxes = Axes._init(newaxes, shape=self.shape)\n        else:\n            assert [ax.size for ax in newaxes] == list(self.shape), \"shape mismatch\"", 'reintroduce F14')
+B('c05-check-removed', 'C05', CLS, "        if inferred != self.values.shape:", "        if False and inferred != self.values.shape:", 'constructor check disabled')
+B('c05-check-before-store', 'C05', CLS, "        self._attrs.update(kwargs)\n        self._values = values\n        self._axes = axes\n", "        self._attrs.update(kwargs)\n", 'stores moved (removed) - check sees nothing')
+B('c05-check-wrong-operands', 'C05', CLS, "        inferred = tuple([ax.size for ax in self.axes])\n        if inferred != self.values.shape:", "        inferred = tuple([ax.size for ax in self.axes])\n        if len(inferred) != len(self.values.shape):", 'only ndim compared')
+B('c05-dup-name-guard', 'C05', AXES, "        if newax.name in [ax.name for ax in self]:\n            raise ValueError(\"axis name already exist: {}\".format(newax.name))\n", "", 'duplicate names accepted')
+B('c05-empty-name', 'C05', AXES, "        if not name:\n            raise ValueError(\"Axis name cannot be empty\")\n", "", '')
+B('c05-name-direct-write', 'C05', DS, "            self.axes[i].name = newname", "            self.axes[i]._name = newname", 'name written around the setter')
+B('c05-ndim-guard', 'C05', AXES, "    if values.ndim != 1:\n        raise ValueError(\"an Axis object can only be 1-D, got ndim={}\".format(values.ndim))\n", "", '2-D labels accepted')
+B('c05-cache-reset-setitem', 'C05', AXES, "        # here could do some additional check about _monotonic and other axis attributes\n        # for now just set to None\n        self._monotonic = None\n", "", 'stale cache after ax[i] = v')
+B('c05-cache-reset-setter', 'C05', AXES, "        self._values = values\n        self._monotonic = None\n", "        self._values = values\n", 'stale cache after ax.values = v')
+B('c05-cache-true-after-write', 'C05', AXES, "        self._values[item] = value\n\n        # here could do some additional check about _monotonic and other axis attributes\n        # for now just set to None\n        self._monotonic = None", "        self._values[item] = value\n        self._monotonic = True", '')
+B('c05-cache-inherit-fancy', 'C05', AXES, "        if self._monotonic and type(item) is slice:", "        if self._monotonic:", 'fancy-indexed sub-axis inherits monotonic flag')
+B('c05-direct-values-write', 'C05', TRANS, "        res.values = obj.axes[idx].values[res.values] \n        return res\n\n    # flattened array: tuple of axis values\n    else: # res is ndarray\n        res = np.unravel_index(res, obj.shape)\n        return tuple(obj.axes[i].values[v] for i, v in enumerate(res))\n\n@format_doc(default_axis=\"None\")\n@format_doc(axis=_doc_axis, skipna=_doc_skipna)\ndef argmax", "        res._values = obj.axes[idx].values[res.values] \n        return res\n\n    # flattened array: tuple of axis values\n    else: # res is ndarray\n        res = np.unravel_index(res, obj.shape)\n        return tuple(obj.axes[i].values[v] for i, v in enumerate(res))\n\n@format_doc(default_axis=\"None\")\n@format_doc(axis=_doc_axis, skipna=_doc_skipna)\ndef argmax", 'direct _values write outside the class')
+B('c05-axes-insert-inplace', ['C05', 'C15'], RESH, "    axes = self.axes.copy()\n    axes.insert(pos, axis)", "    axes = self.axes\n    self.axes.insert(pos, axis)", 'newaxis inserts into the operand axes list')
+B('c05-axes-setitem-size', 'C05', AXES, "        if newax.size != curax.size:\n            raise ValueError(\"set axis: size mismatch.\\nExpected: {}, got: {}\".format(curax.size, newax.size))\n", "", 'axis of another size accepted')
+B('c05-values-setter-size', 'C05', AXES, "        if self._values.size != values.size:\n            raise ValueError(\"Invalid size. Expected: {}. Got: {}\".format(self._values.size, values.size))\n", "", '')
+B('c05-zeros-fill', 'C05', CLS, "    a = empty(axes, dims, shape, dtype=dtype)\n    a.fill(0)\n    return a", "    a = empty(axes, dims, shape, dtype=dtype)\n    return a", 'zeros returns uninitialised memory')
+B('c05-from-arrays-pairing', 'C05', AXES, "        return cls(list(zip(dims, arrays)))", "        return cls(list(zip(reversed(dims), arrays)))", 'names paired with wrong labels')
+B('c05-init-axes-untyped', 'C05', AXES, "    elif np.all([isinstance(ax, Axis) for ax in axes]):\n        axes = Axes(axes)", "    elif np.all([isinstance(ax, Axis) for ax in axes]):\n        axes = list(axes)", 'plain list instead of Axes')
+B('c05-label-write-outside', 'C05', ALIGN, "        newobj.axes[axis][mask] = values[mask]", "        newobj.axes[axis].values[mask] = values[mask]", 'labels written around Axis.__setitem__ (seeded C06-2/C07-2)')
+N('c05-n-rename', 'C05', CLS, "inferred", "sizes", 'rename', all=True)
+N('c05-n-assert-to-raise', 'C05', CLS, "        assert [ax.size for ax in newaxes] == list(self.shape), \"shape mismatch\"", "        if [ax.size for ax in newaxes] != list(self.shape):\n            raise ValueError(\"shape mismatch\")", 'assert -> raise')
+N('c05-n-setter-order', 'C05', AXES, "        self._values = values\n        self._monotonic = None\n", "        self._monotonic = None\n        self._values = values\n        self._monotonic = None\n", 'extra reset before')
